@@ -9,8 +9,9 @@ CONSTANTS
   Mult = 2
   MaxCommits = 7
   WakeRule = "always"
-  BottomRule = "last"
-  LevelLoop = "stalled"
+  BottomRule = "l0limit"
+  LevelLoop = "once"
+  RegisterRule = "first"
 INVARIANTS TypeOK FlushScheduled CompactionScheduled ImmBounded NeverStuck
 PROPERTIES CommitReturns CloseReturns
 CHECK_DEADLOCK FALSE
